@@ -177,6 +177,9 @@ class ExprMixin:
             self.emit("safe.none", f"{attr}@L{getattr(node, 'lineno', 0)}", st, z3.Not(base.isnone))
             self.assume_here(st, z3.Not(base.isnone))
             base = base.val
+        if attr == "__dict__" and isinstance(base, SV) and isinstance(base.ty, TObj):
+            from .values import ObjDict
+            return ObjDict(base)
         if base.__class__.__name__ == "SuperRef":
             for c in loader.mro(base.cls)[1:]:
                 mem = loader.class_members(c).get(attr)
